@@ -39,7 +39,12 @@ DESC_PAR = {
     "nontrivial": lambda r, before, after: True,
 }
 
-TEMPLATES_Q = ["real_ga", "real_pso", "real_de", "real_cro", "binary_ga", "ant_system", "real_iwo"]
+TEMPLATES_Q = ["real_ga", "real_pso", "real_de", "real_cro", "binary_ga", "ant_system", "real_iwo", "real_fa"]
+# parameter sets to prefer when one set per template is taken: parameters that a copy could mix up must differ
+PREFER = {"real_fa": lambda p: p["beta"] != p["gamma"]}
+# harness-built configurations (not shipped templates): diversity measures logged every iteration; a warm start whose
+# individuals carry placeholder objective values before the first evaluation
+EXTRA = [("real_ga|div", {"population_size": 24}), ("real_ga|warm", {"population_size": 12})]
 
 
 def run(ctx):
@@ -50,12 +55,19 @@ def run(ctx):
     for s in specs(True, [ctx.seed] if q else [ctx.seed, ctx.seed + 1, ctx.seed + 2], [4] if q else [3, 12]):
         if q and s["template"] not in TEMPLATES_Q:
             continue
+        if s["template"] in PREFER and not PREFER[s["template"]](s["params"]):
+            continue
         key = (s["template"], s["seed"], s["n"])
         if key in seen:          # one parameter set per template
             continue
         seen.add(key)
         s = dict(s, pools=[1, 2, 8] if q else [1, 2, 3, 8, 16])
         groups.append(s)
+    for t, params in EXTRA:
+        for seed in ([ctx.seed] if q else [ctx.seed, ctx.seed + 1, ctx.seed + 2]):
+            groups.append({"run": len(groups), "template": t, "params": params, "n": 6 if q else 25, "seed": seed, "eval": "seq",
+                           "prob": {"kind": "real", "f": 1, "dim": 5, "lo": -4.0, "hi": 12.0}, "size_lo": 0, "size_hi": 10 ** 6,
+                           "pools": [1, 2, 3, 8] if q else [1, 2, 3, 5, 8, 16]})
     spath = os.path.join(ctx.work, "groups.specs.ndjson")
     with open(spath, "w") as f:
         for s in groups:
